@@ -164,11 +164,11 @@ fn place(t: &mut RoutingTable, n: Node) {
 }
 
 /// table 00.. with A (insecure, 10.0.0.2, bucket 160) and B (secure, 10.0.0.5, bucket 159)
-fn table_ab() -> RoutingTable {
-    let mut t = RoutingTable::new(idb(0, 0, 0));
-    place(&mut t, node_aged(idb(0x80, 1, 0), addr(2, 7000), 1_000));
-    place(&mut t, node_aged(idb(0x40, 1, 0), addr(5, 7000), 1_000));
-    t
+/// (fills a table in place: returning it by value is a byte-wise move after which CBMC no longer
+/// treats the slot contents as constants)
+fn fill_ab(t: &mut RoutingTable) {
+    place(t, node_aged(idb(0x80, 1, 0), addr(2, 7000), 1_000));
+    place(t, node_aged(idb(0x40, 1, 0), addr(5, 7000), 1_000));
 }
 
 #[kani::proof]
@@ -178,7 +178,8 @@ fn table_ab() -> RoutingTable {
 #[kani::stub(Id::is_valid_for_ip, stub_is_valid_for_ip)]
 #[kani::stub(KBucket::add, stub_bucket_add)]
 fn c12_table_add_guards_then_delegates_to_the_bucket_at_its_distance() {
-    let mut t = table_ab();
+    let mut t = RoutingTable::new(idb(0, 0, 0));
+    fill_ab(&mut t);
     let b0: u8 = kani::any();
     let b1: u8 = kani::any();
     let b19: u8 = kani::any();
@@ -229,7 +230,8 @@ fn c12_table_add_guards_then_delegates_to_the_bucket_at_its_distance() {
 #[kani::stub(std::time::Instant::now, clock::mock_now)]
 #[kani::stub(std::time::Instant::elapsed, clock::mock_elapsed)]
 fn c12_table_remove_removes_exactly_that_id() {
-    let mut t = table_ab();
+    let mut t = RoutingTable::new(idb(0, 0, 0));
+    fill_ab(&mut t);
     place(&mut t, node_aged(idb(0x80, 0, 1), addr(9, 7000), 1_000)); // C, same bucket as A
     let b0: u8 = kani::any();
     let b1: u8 = kani::any();
@@ -276,7 +278,8 @@ fn stub_table_add(t: &mut RoutingTable, node: Node) -> bool {
 #[kani::stub(std::time::Instant::elapsed, clock::mock_elapsed)]
 #[kani::stub(RoutingTable::add, stub_table_add)]
 fn c12_reset_id_rebuilds_the_table_through_add() {
-    let mut t = table_ab();
+    let mut t = RoutingTable::new(idb(0, 0, 0));
+    fill_ab(&mut t);
     let nb: u8 = kani::any();
     let new_id = idb(nb, 3, 0);
     t.reset_id(new_id);
